@@ -3,7 +3,7 @@ from __future__ import annotations
 
 import torch
 
-TOL_EXACT = 1e-8
+TOL_EXACT = 1e-6
 TOL_ITER = 1e-3
 
 
